@@ -13,6 +13,17 @@ func main() {
 		fmt.Fprintln(os.Stderr, "usage: translate <repo> <outdir>")
 		os.Exit(2)
 	}
+	if os.Args[1] == "crashpoints" {
+		if len(os.Args) < 4 {
+			fmt.Fprintln(os.Stderr, "usage: translate crashpoints <repo> <outdir>")
+			os.Exit(2)
+		}
+		if err := genCrashOverlay(os.Args[2], os.Args[3]); err != nil {
+			fmt.Fprintln(os.Stderr, err)
+			os.Exit(1)
+		}
+		return
+	}
 	repo, out := os.Args[1], os.Args[2]
 	gens := []struct {
 		name string
